@@ -1,0 +1,141 @@
+//go:build verif
+
+// Verification hooks (build tag "verif" only): accessors for the unexported push-decision
+// functions (per-type *NeedsPush, relevance filter, proxy state refresh, push order) and for
+// the push queue counters (quiescence detection without sleeps). No behaviour change; absent
+// from normal builds.
+
+package xds
+
+import (
+	"istio.io/istio/pilot/pkg/model"
+	"istio.io/istio/pkg/config/schema/kind"
+)
+
+// VerifC01XdsNeedsPush exposes xdsNeedsPush.
+func VerifC01XdsNeedsPush(req *model.PushRequest, proxy *model.Proxy) (bool, bool) {
+	return xdsNeedsPush(req, proxy)
+}
+
+// VerifC01WaypointNeedsPush exposes waypointNeedsPush.
+func VerifC01WaypointNeedsPush(req *model.PushRequest, proxy *model.Proxy) bool {
+	return waypointNeedsPush(req, proxy)
+}
+
+// VerifC01CdsNeedsPush exposes cdsNeedsPush.
+func VerifC01CdsNeedsPush(req *model.PushRequest, proxy *model.Proxy) (*model.PushRequest, bool) {
+	return cdsNeedsPush(req, proxy)
+}
+
+// VerifC01EdsNeedsPush exposes edsNeedsPush.
+func VerifC01EdsNeedsPush(req *model.PushRequest, proxy *model.Proxy) bool {
+	return edsNeedsPush(req, proxy)
+}
+
+// VerifC01CanSendPartialFullPushes exposes canSendPartialFullPushes.
+func VerifC01CanSendPartialFullPushes(req *model.PushRequest) bool {
+	return canSendPartialFullPushes(req)
+}
+
+// VerifC01LdsNeedsPush exposes ldsNeedsPush.
+func VerifC01LdsNeedsPush(proxy *model.Proxy, req *model.PushRequest) bool {
+	return ldsNeedsPush(proxy, req)
+}
+
+// VerifC01RdsNeedsPush exposes rdsNeedsPush.
+func VerifC01RdsNeedsPush(req *model.PushRequest, proxy *model.Proxy) bool {
+	return rdsNeedsPush(req, proxy)
+}
+
+// VerifC01NdsNeedsPush exposes ndsNeedsPush.
+func VerifC01NdsNeedsPush(req *model.PushRequest, proxy *model.Proxy) bool {
+	return ndsNeedsPush(req, proxy)
+}
+
+// VerifC01EcdsNeedsPush exposes ecdsNeedsPush.
+func VerifC01EcdsNeedsPush(req *model.PushRequest, proxy *model.Proxy) bool {
+	return ecdsNeedsPush(req, proxy)
+}
+
+// VerifC01PcdsNeedsPush exposes pcdsNeedsPush.
+func VerifC01PcdsNeedsPush(req *model.PushRequest) bool {
+	return pcdsNeedsPush(req)
+}
+
+// VerifC01SdsNeedsPush exposes sdsNeedsPush.
+func VerifC01SdsNeedsPush(forced bool, updates model.XdsUpdates) bool {
+	return sdsNeedsPush(forced, updates)
+}
+
+// VerifC01FilterRelevantUpdates exposes filterRelevantUpdates.
+func VerifC01FilterRelevantUpdates(proxy *model.Proxy, req *model.PushRequest) *model.PushRequest {
+	return filterRelevantUpdates(proxy, req)
+}
+
+// VerifC01ProxyDependentOnConfig exposes proxyDependentOnConfig.
+func VerifC01ProxyDependentOnConfig(proxy *model.Proxy, config model.ConfigKey, push *model.PushContext) bool {
+	return proxyDependentOnConfig(proxy, config, push)
+}
+
+// VerifC01ComputeProxyState exposes DiscoveryServer.computeProxyState.
+func VerifC01ComputeProxyState(s *DiscoveryServer, proxy *model.Proxy, req *model.PushRequest) {
+	s.computeProxyState(proxy, req)
+}
+
+// VerifC01WatchedResourcesByOrder exposes Connection.watchedResourcesByOrder for a bare
+// connection around the given proxy; it returns the type URLs in push order.
+func VerifC01WatchedResourcesByOrder(proxy *model.Proxy) []string {
+	c := newConnection("verif-c01", nil)
+	c.proxy = proxy
+	var out []string
+	for _, w := range c.watchedResourcesByOrder() {
+		out = append(out, w.TypeUrl)
+	}
+	return out
+}
+
+// VerifC01SkipTables dumps the hand-maintained skip tables (reporting only; the checks observe
+// the behaviour of the functions, not these tables).
+func VerifC01SkipTables() map[string][]kind.Kind {
+	out := map[string][]kind.Kind{
+		"cds":          skippedCdsConfigs.UnsortedList(),
+		"cds-gateway+": pushCdsGatewayConfig.UnsortedList(),
+		"eds":          skippedEdsConfigs.UnsortedList(),
+		"eds-delta":    deltaAwareEdsConfigs.UnsortedList(),
+		"rds":          skippedRdsConfigs.UnsortedList(),
+		"nds":          skippedNdsConfigs.UnsortedList(),
+	}
+	for t, s := range skippedLdsConfigs {
+		out["lds/"+string(t)] = s.UnsortedList()
+	}
+	for t, s := range UnAffectedConfigKinds {
+		out["unaffected/"+string(t)] = s.UnsortedList()
+	}
+	return out
+}
+
+// VerifC01QueueCounts returns the number of connections waiting in the push queue and the
+// number of connections whose push has been dequeued but not yet marked done.
+func VerifC01QueueCounts(s *DiscoveryServer) (pending int, processing int) {
+	p := s.pushQueue
+	p.cond.L.Lock()
+	defer p.cond.L.Unlock()
+	return len(p.pending), len(p.processing)
+}
+
+// VerifC01PushChannelLen returns the number of push requests handed to ConfigUpdate that the
+// debouncer has not yet read.
+func VerifC01PushChannelLen(s *DiscoveryServer) int {
+	return len(s.pushChannel)
+}
+
+// VerifC01PushConnection runs DiscoveryServer.pushConnection for a bare connection around the
+// given proxy (state refresh gate, computeProxyState, ProxyNeedsPush, then one pushXds per watched
+// resource in push order; a proxy without watched resources sends nothing).
+func VerifC01PushConnection(s *DiscoveryServer, proxy *model.Proxy, req *model.PushRequest) error {
+	c := newConnection("verif-c01", nil)
+	c.proxy = proxy
+	c.s = s
+	c.SetID(proxy.ID)
+	return s.pushConnection(c, &Event{pushRequest: req, done: func() {}})
+}
